@@ -319,12 +319,19 @@ func Gen(w io.Writer, seed int64, n int) error {
 			case 0:
 				x.Sexes = append(x.Sexes, []string{"M", "F"}[rng.Intn(2)])
 			case 1:
-				x.Birt = ev(Date{K: "bad", T: []string{"sometime", "3 Foo 1900", "32 Jan 1900"}[rng.Intn(3)]})
+				// (days that no calendar has, also the 29 Feb of century years that are not leap years)
+				x.Birt = ev(Date{K: "bad", T: []string{"sometime", "3 Foo 1900", "32 Jan 1900", "29 Feb 1900", "29 Feb 1800", "31 Apr 1850", "29 Feb 1801"}[rng.Intn(7)]})
 			case 2:
 				x.Bapm = ev(day(birth.AddDate(0, 0, []int{-20, 10, 300}[rng.Intn(3)])))
 			case 3:
 				x.Birt = ev()
 				x.Bapm = ev(day(birth))
+			}
+			if rng.Intn(25) == 0 { // somebody of whom nothing but the name and two sexes is recorded
+				x.Sexes = []string{"M", "F"}
+				x.Birt, x.Bapm = ev(), ev()
+				d.People = append(d.People, x)
+				return &d.People[len(d.People)-1]
 			}
 			if rng.Intn(2) == 0 {
 				death := birth.AddDate(0, 0, lifeSpans[rng.Intn(len(lifeSpans))])
